@@ -40,7 +40,7 @@ ALLOWED_AXIOMS = {
     "FunctionalExtensionality.functional_extensionality_dep",
     "Classical_Prop.classic",
 }
-NJOBS = int(os.environ.get("VERIF_JOBS", "16"))
+NJOBS = int(os.environ.get("VERIF_JOBS", "12"))
 
 
 def sh(cmd, timeout, cwd=VERIF):
@@ -57,10 +57,28 @@ def coqc(path, bdir, timeout=300):
     return sh(["timeout", str(timeout + 5), "coqc", "-w", "-all", "-Q", COQ, "PW", "-Q", bdir, "Gen", path], timeout + 10)
 
 
-def ensure_library():
-    """Rebuild whatever is stale in the hand-written library (does not depend on /repo)."""
-    rc, out, _ = sh(["flock", os.path.join(COQ, ".lock"), "bash", os.path.join(VERIF, "setup.sh"), "--lib-only"], 3000)
+def ensure_library(targets):
+    """Rebuild whatever is stale among the library files this property needs (they do not depend on /repo)."""
+    rc, out, _ = sh(["flock", os.path.join(COQ, ".lock"), "bash", os.path.join(VERIF, "setup.sh"), "--targets",
+                     " ".join(targets)], 3000)
     return rc, out
+
+
+def dep_closure(roots):
+    """.v files of coq/ reachable from the given files through `From PW... Require Import` lines."""
+    seen, stack = set(), list(roots)
+    while stack:
+        p = stack.pop()
+        if p in seen or not os.path.exists(p):
+            continue
+        seen.add(p)
+        txt = open(p, errors="replace").read()
+        for m in re.finditer(r"From\s+(PW[\w.]*)\s+Require\s+(?:Import|Export)\s+([^.]*)\.", txt):
+            base = m.group(1).split(".")[1:]
+            for name in m.group(2).split():
+                parts = base + name.split(".")
+                stack.append(os.path.join(COQ, *parts) + ".v")
+    return seen
 
 
 # ------------------------------------------------------------------------------------------------
@@ -198,27 +216,26 @@ class Run:
     def prepare(self):
         shutil.rmtree(self.bdir, ignore_errors=True)
         os.makedirs(self.bdir)
-        rc, out = ensure_library()
+        targets = ["props/%s.vo" % self.pid, "corr/K_%s.vo" % self.pid] + list(getattr(self.mod, "EXTRA_TARGETS", []))
+        rc, out = ensure_library(targets)
         if rc != 0:
             self.broken.append(("library", "hand-written Coq library does not build:\n" + out[-3000:]))
 
     def hygiene(self):
         bad = []
-        roots = [COQ, self.bdir]
-        for root in roots:
-            for dp, _, fns in os.walk(root):
-                for fn in fns:
-                    if fn.endswith(".v"):
-                        p = os.path.join(dp, fn)
-                        for ln_no, ln in enumerate(open(p, errors="replace"), 1):
-                            if FORBIDDEN.search(ln):
-                                bad.append("%s:%d: %s" % (os.path.relpath(p, VERIF), ln_no, ln.strip()))
+        files = dep_closure([os.path.join(COQ, "props", self.pid + ".v"), os.path.join(COQ, "corr", "K_%s.v" % self.pid)])
+        files |= {os.path.join(self.bdir, fn) for fn in os.listdir(self.bdir) if fn.endswith(".v") and not fn.startswith("cases")}
+        files |= dep_closure(list(files))
+        for p in sorted(files):
+            for ln_no, ln in enumerate(open(p, errors="replace"), 1):
+                if FORBIDDEN.search(ln):
+                    bad.append("%s:%d: %s" % (os.path.relpath(p, VERIF), ln_no, ln.strip()))
         self.obligations += 1
         if bad:
             self.broken.append(("hygiene", "forbidden declarations:\n" + "\n".join(bad[:20])))
         else:
             self.discharged += 1
-        self.cov["hygiene_files_scanned"] = sum(len([f for f in fs if f.endswith(".v")]) for r in roots for _, _, fs in os.walk(r))
+        self.cov["hygiene_files_scanned"] = len(files)
 
     def traced(self):
         kernels = self.mod.kernels() if hasattr(self.mod, "kernels") else []
@@ -308,7 +325,7 @@ class Run:
             if f:
                 oracle_fail[i] = f
         # model vs implementation inside Coq
-        shard = 400
+        shard = getattr(mod, "SHARD", 100)
         files = []
         for s in range(0, len(cases), shard):
             terms = []
@@ -474,17 +491,24 @@ def replay(pid, path):
 def main_check(pid, tier):
     seed = int(os.environ.get("VERIF_SEED", "0"))
     run = Run(pid, tier, seed)
-    run.prepare()
+    tm = run.cov.setdefault("timings_s", {})
+
+    def step(name, f):
+        t = time.time()
+        f()
+        tm[name] = round(time.time() - t, 1)
+
+    step("library", run.prepare)
     if not run.broken:
-        run.traced()
-        run.props()
-    run.hygiene()
+        step("traced", run.traced)
+        step("props", run.props)
+    step("hygiene", run.hygiene)
     try:
-        run.correspondence()
+        step("correspondence", run.correspondence)
     except Exception as e:
         run.broken.append(("harness", "correspondence harness crashed: %r\n%s" % (e, traceback.format_exc()[-2000:])))
     if tier == "thorough" and not run.broken:
-        run.coqchk()
+        step("coqchk", run.coqchk)
     return run.finish()
 
 
